@@ -10,21 +10,24 @@
 -/
 import Nuts.Driver.Common
 import Nuts.Driver.ListDS
+import Nuts.Driver.DB
 open Nuts Nuts.Driver
 
 inductive SuiteSt where
   | none
   | listDS (s : ListSuite.St)
+  | db (s : DBSuite.St)
 
 def freshSuite (name : String) : SuiteSt :=
   match name with
   | "list-ds" => .listDS {}
-  | _ => .none
+  | _ => if name.startsWith "db" then .db {} else .none
 
 def stepSuite (s : SuiteSt) (cmd impl : String) : SuiteSt × Verdict :=
   match s with
   | .none => (s, { model := "no-suite", specOk := none })
   | .listDS st => let (st', v) := ListSuite.step st cmd impl; (.listDS st', v)
+  | .db st => let (st', v) := DBSuite.step st cmd impl; (.db st', v)
 
 def renderVerdict (lineno : Nat) (cmd impl : String) (v : Verdict) : String :=
   let m := if v.model == impl then "M" else "m"
